@@ -478,6 +478,26 @@ func checkC12(c *Ctx) {
 				src := pathOf(st.Val)
 				r.Check(g && strings.Contains(src, "GetRegistrationResponse().GetTransportParams()"), "C12.4", "station: TransportParams <- response params only under !GetDisableRegistrarOverrides()", in.Pos(), fnName(f), src,
 					"the station applies the registrar's parameter override without checking the client's disable flag (or from another source): station and client disagree on the transport parameters")
+				// ... and whenever the response carries parameters and the client allows overrides: no other condition
+				// (the address family being built, the source, the transport) may decide whether they are applied
+				var extra []string
+				always := reachGame(f, in, func(bl *ssa.BasicBlock) int {
+					iff, ok := bl.Instrs[len(bl.Instrs)-1].(*ssa.If)
+					if !ok {
+						return gameAny
+					}
+					cnd, _ := normCond(iff.Cond)
+					if strings.Contains(cnd, "GetRegistrationResponse()") || strings.Contains(cnd, "GetDisableRegistrarOverrides()") || (strings.Contains(cnd, "nil") && strings.Contains(cnd, ")#1")) {
+						return gameAny
+					}
+					if hit, _ := reachAt(f, bl, isInstr(in), nil, nil); !hit {
+						return gameAny
+					}
+					extra = append(extra, cnd)
+					return gameAll
+				})
+				r.Check(always, "C12.4", "station: response params applied whenever present and allowed", in.Pos(), fnName(f), "reached whatever any condition says other than the presence of the response / its parameters, the client's flag and error returns",
+					"whether the station applies the registrar's parameter override also depends on "+firstN(strings.Join(uniq(sortedCopy(extra)), ", "), 100)+": for some registrations built from the forwarded message the station keeps the client's own parameters while the client was told the registrar's")
 			}
 		})
 		if n == 0 {
